@@ -489,13 +489,60 @@ except KeyError:
             "the de-duplicator no longer maps equal-key wrappers to the first one seen")
 
 
+def _is_filtered(n):
+    if isinstance(n, (ast.GeneratorExp, ast.ListComp)):
+        return any(g.ifs for g in n.generators)
+    if isinstance(n, ast.Call) and isinstance(n.func, ast.Name):
+        if n.func.id == "filter":
+            return True
+        if n.func.id in ("tuple", "list") and n.args:
+            return _is_filtered(n.args[0])
+    return False
+
+
+def r_position(c):
+    """positions of a node's sequence field are counted in the field itself: an
+    enumerate() over a filtered view numbers the survivors 0,1,2.., which are not
+    the positions the rebuilt node (or a later lookup by position) uses"""
+    m = c.model
+    mods = [x for x in m.modules if x.startswith("pytato.transform")
+            or x in ("pytato.codegen", "pytato.distributed.partition")]
+    n = 0
+    for mi, fd in m.all_functions(modules=mods):
+        if m.enclosing_function(fd) is not None:
+            continue
+        params = [a.arg for a in fd.args.args[1:2]]
+        if not params:
+            continue
+        ep = params[0]
+        for call in ast.walk(fd):
+            if not (isinstance(call, ast.Call) and isinstance(call.func, ast.Name)
+                    and call.func.id == "enumerate" and call.args):
+                continue
+            arg = call.args[0]
+            # over (something derived from) a field of the node at hand?
+            if not any(isinstance(x, ast.Attribute) and isinstance(x.value, ast.Name)
+                       and x.value.id == ep for x in ast.walk(arg)):
+                continue
+            n += 1
+            qn = m.qualname(fd).replace("pytato.", "", 1)
+            c.check(not _is_filtered(arg), "R05-POSITION", qn,
+                    f"enumerate-over-the-whole-field:{m.frag(arg, 40)}", m.loc(mi, call),
+                    f"`enumerate({m.frag(arg, 50)})` numbers only the entries that pass the "
+                    "filter: these numbers are positions among the survivors, not positions "
+                    f"in {ep}'s field, so results keyed by them are written back into the "
+                    "wrong slots when the node is rebuilt")
+    if n < 4:
+        raise AnalysisError(f"only {n} enumerate() sites over node fields found (floor 4)")
+
+
 SPEC = Spec(
     prop="C05",
     rules=[r_nomut, r_rebuild, r_rebuild_guard, r_keys, r_tagonly, r_ident_keyed,
-           r_dedup_key],
+           r_dedup_key, r_position],
     floors={"R05-NOMUT": 300, "R05-REBUILD": 60, "R05-IDENTITY": 40,
             "R05-REBUILD-GUARD": 10, "R05-KEYS": 15, "R05-TAGONLY": 40,
-            "R05-IDENT-KEYED": 4, "R05-DEDUP-KEY": 8},
+            "R05-IDENT-KEYED": 4, "R05-DEDUP-KEY": 8, "R05-POSITION": 4},
     explanation=(
         "R05-NOMUT: effect analysis (access-path flow) of every function and method "
         "of the transformation/analysis modules: no attribute/subscript store, "
